@@ -77,7 +77,10 @@ def have_setarch():
 
 
 class Config:
-    def __init__(self, name, aslr=True, cwd="a", relative=False, big_env=False, locale="C", reuse=False, history=False):
+    def __init__(self, name, aslr=True, cwd="a", relative=False, big_env=False, locale="C", reuse=False, history=False, path_shape=None):
+        # path_shape: the same file content reached by another path: long250 / long1000 (nested directories), dotdot
+        # (`.` and `..` segments), symlink (through a symlinked directory), spaces (directory names with blanks)
+        self.path_shape = path_shape
         self.name, self.aslr, self.cwd, self.relative, self.big_env, self.locale, self.reuse = name, aslr, cwd, relative, big_env, locale, reuse
         # history: an earlier run on ANOTHER revision of the file (one more entity) left its output in the directory, and the
         # file then got its content back with an older modification time; only for tools that overwrite everything they
@@ -90,17 +93,28 @@ def configs(quick, setarch):
     if quick:
         return [base, Config("repeat"),
                 Config("all-varied", aslr=not setarch, cwd="bb/deeper/dir", relative=True, big_env=True, locale="C.UTF-8"),
-                Config("over-previous-run", reuse=True), Config("after-other-revision", history=True)]
+                Config("over-previous-run", reuse=True), Config("after-other-revision", history=True),
+                Config("long-path-250", path_shape="long250"), Config("long-path-1000-relative", path_shape="long1000", relative=True),
+                Config("dotdot-symlink", path_shape="dotdot-symlink"), Config("spaces-in-path", path_shape="spaces", cwd="dir with blanks/b")]
     cs = [base, Config("repeat"), Config("repeat2"), Config("cwd", cwd="bb/deeper/dir"), Config("relative-path", relative=True),
           Config("huge-env", big_env=True), Config("utf8-locale", locale="C.UTF-8"), Config("over-previous-run", reuse=True),
           Config("all-varied", cwd="cc", relative=True, big_env=True, locale="C.UTF-8"), Config("after-other-revision", history=True),
-          Config("lang-utf8", locale="LANG=C.UTF-8")]
+          Config("lang-utf8", locale="LANG=C.UTF-8"),
+          Config("long-path-250", path_shape="long250"), Config("long-path-1000", path_shape="long1000"),
+          Config("long-path-1000-relative", path_shape="long1000", relative=True), Config("dotdot", path_shape="dotdot"),
+          Config("symlink", path_shape="symlink"), Config("dotdot-symlink-relative", path_shape="dotdot-symlink", relative=True),
+          Config("spaces-in-path", path_shape="spaces", cwd="dir with blanks/b")]
     if setarch:
         cs += [Config("no-aslr", aslr=False), Config("no-aslr-2", aslr=False)]
     return cs
 
 
 TOOLS = ["exp2cxx", "exp2python", "exppp", "schema_scanner"]
+
+
+def cfg_dict(c):
+    return dict(name=c.name, aslr=c.aslr, cwd=c.cwd, relative=c.relative, big_env=c.big_env, locale=c.locale, reuse=c.reuse,
+                history=c.history, path_shape=c.path_shape)
 
 
 def run_tool(b, tool, exp_abs, root, cfg, timeout=600):
@@ -115,6 +129,7 @@ def run_tool(b, tool, exp_abs, root, cfg, timeout=600):
     elif not cfg.reuse:
         shutil.rmtree(wd, ignore_errors=True)
         os.makedirs(wd)
+    exp_abs = shaped_path(exp_abs, root, cfg.path_shape)
     path = os.path.relpath(exp_abs, wd) if cfg.relative else exp_abs
     env = {"PATH": "/usr/bin:/bin", "LD_LIBRARY_PATH": b.lib, "HOME": "/nonexistent",
            "ASAN_OPTIONS": "detect_leaks=0", "UBSAN_OPTIONS": "print_stacktrace=1"}
@@ -124,7 +139,7 @@ def run_tool(b, tool, exp_abs, root, cfg, timeout=600):
         env["LC_ALL"] = cfg.locale
     if cfg.big_env:
         for i in range(150):
-            env[f"VERIF_FILLER_{i}"] = "x" * 800
+            env[f"VERIF_FILLER_{i}"] = ENV_MARK * 40
     exe = G.build_scanner(b) if tool == "schema_scanner" else b.tool(tool)
     cmd = [exe, path]
     if not cfg.aslr:
@@ -135,6 +150,62 @@ def run_tool(b, tool, exp_abs, root, cfg, timeout=600):
     # and in SCHEMA_TARGETS("<input>") / messages: mask exactly these two strings
     out = out.replace(wd, "<CWD>").replace(path, "<INPUT>")
     return r.returncode, wd, out, path, r.stderr.decode("latin-1")[-300:]
+
+
+ENV_MARK = "VerifEnvValueMarker"
+HOME_VALUE = "/nonexistent"
+
+
+def shaped_path(exp_abs, root, shape):
+    """another path to a file with the same content and the same base name (the scanner's short name depends on the base
+    name and on a `data/` directory, neither of which is varied)"""
+    if not shape:
+        return exp_abs
+    base = os.path.basename(exp_abs)
+    src_dir = os.path.dirname(exp_abs)
+    if shape in ("long250", "long1000"):
+        want = 260 if shape == "long250" else 1040
+        d = os.path.join(root, "p")
+        i = 0
+        while len(os.path.join(d, base)) < want:
+            d = os.path.join(d, f"nested_directory_level_{i:03d}_" + "n" * 60)
+            i += 1
+        os.makedirs(d, exist_ok=True)
+        dst = os.path.join(d, base)
+    elif shape == "spaces":
+        d = os.path.join(root, "p", "a dir with blanks", "and (parentheses) + plus")
+        os.makedirs(d, exist_ok=True)
+        dst = os.path.join(d, base)
+    elif shape in ("dotdot", "symlink", "dotdot-symlink"):
+        link = os.path.join(root, "p", "link_to_schema_dir")
+        os.makedirs(os.path.dirname(link), exist_ok=True)
+        if not os.path.islink(link):
+            os.symlink(src_dir, link)
+        d = link if "symlink" in shape else src_dir
+        if "dotdot" in shape:
+            # `<link>/..` is the parent of the link's *target*, so the way back down is the real directory name in both cases
+            return os.path.join(d, "..", os.path.basename(src_dir), ".", base)
+        return os.path.join(d, base)
+    else:
+        raise ValueError(shape)
+    if not os.path.exists(dst):
+        shutil.copy(exp_abs, dst)
+    return dst
+
+
+def leaks(tool, snap, path, wd, exp_abs):
+    """"no generated file contains a … name that is not a function of the schema text": the path naming the input (as typed and
+    absolute), the working directory, $HOME and environment values must not occur in any generated file.  (The one
+    legitimate place — SCHEMA_TARGETS("<input>" …) in the scanner's CMakeLists.txt — is masked by snapshot().)"""
+    needles = [("the input path as typed", path), ("the absolute input path", os.path.abspath(os.path.join(wd, path))), ("the real input path", os.path.realpath(exp_abs)),
+               ("the working directory", wd), ("$HOME", HOME_VALUE), ("an environment value", ENV_MARK)]
+    for f, data in snap.items():
+        for what, n in needles:
+            if len(n) >= 8 and n.encode() in data:
+                i = data.index(n.encode())
+                line = data[data.rfind(b"\n", 0, i) + 1:data.find(b"\n", i) if data.find(b"\n", i) >= 0 else len(data)]
+                return f, what, line[:200]
+    return None
 
 
 def run_history(b, tool, exp_abs, root, cfg, timeout):
@@ -161,13 +232,14 @@ def run_history(b, tool, exp_abs, root, cfg, timeout):
     return r.returncode, wd, out, exp_abs, r.stderr.decode("latin-1")[-300:]
 
 
-def snapshot(wd, masks):
-    """{relative file: bytes} with the two legitimate path strings masked"""
+def snapshot(wd, masks=None):
+    """{relative file: bytes}; the only thing masked is the one place the input path legitimately appears in an output
+    file: the first argument of SCHEMA_TARGETS("<input>" "<schema>" in the scanner's CMakeLists.txt"""
     snap = {}
     for f in G.tree_listing(wd):
         data = open(os.path.join(wd, f), "rb").read()
-        for m, rep in masks:
-            data = data.replace(m.encode(), rep)
+        if os.path.basename(f) == "CMakeLists.txt":
+            data = re.sub(rb'^SCHEMA_TARGETS\("[^"\n]*" ', b'SCHEMA_TARGETS("<INPUT>" ', data, flags=re.M)
         snap[f] = data
     return snap
 
@@ -265,7 +337,14 @@ def examine(ctx, b, name, text, exp_src, cfgs, idx, gen_file=None, model_exe=Non
         ref = None
         for cfg in cfgs:
             rc, wd, out, path, err = run_tool(b, tool, exp_abs, root, cfg)
-            snap = snapshot(wd, [(wd, b"<CWD>"), (path, b"<INPUT>")]) if rc == 0 else {}
+            snap = snapshot(wd) if rc == 0 else {}
+            if rc == 0 and len(ctx.violations) < 3:
+                lk = leaks(tool, snap, path, wd, exp_abs)
+                if lk:
+                    ctx.violation(f"{tool}:leak:{lk[1]}", f"[{name}] a file generated by {tool} contains {lk[1]}: {lk[0]}: {lk[2]!r} (configuration {cfg.name})",
+                                  {"express": text if text is not None else f"<shipped file {exp_src}>", "tool": tool, "configurations": [cfg_dict(cfg), cfg_dict(cfg)],
+                                   "how": "run the tool on the file and grep its output tree for the path naming the input, the working directory, $HOME and environment values"})
+                    break
             ctx.count(1, key=(name, tool, cfg.name))
             ctx.hist("runs", f"{tool}/{cfg.name}")
             ctx.hist("exit", f"{tool} rc={rc}")
@@ -289,9 +368,45 @@ def examine(ctx, b, name, text, exp_src, cfgs, idx, gen_file=None, model_exe=Non
             if what:
                 ctx.violation(key, f"[{name}] {what}",
                               {"express": text if text is not None else f"<shipped file {exp_src}>", "tool": tool,
-                               "configurations": [vars(ref[3]), vars(cfg)],
+                               "configurations": [cfg_dict(ref[3]), cfg_dict(cfg)],
                                "how": "run the tool twice on the file in two empty directories under the two configurations and `diff -r`"})
                 break
+    shutil.rmtree(root, ignore_errors=True)
+
+
+def alone_clause(ctx, b, name, gen_file, root_idx):
+    """call-history independence: the files exp2cxx creates for a declaration are a function of that declaration alone —
+    the names it gives an enumeration (`type/Sdai<T>_var.{h,cc}`) must be the same when the type stands alone in a schema
+    as when it is generated among the others (static name buffers must not carry one call's result into the next)."""
+    root = os.path.join(ctx.work, f"alone{root_idx}")
+    cfg = Config("alone")
+    s0 = gen_file.schemas[0]
+    full_exp = os.path.join(root, "in", "full.exp")
+    os.makedirs(os.path.dirname(full_exp))
+    open(full_exp, "w").write(gen_file.text())
+    rc, wd, out, path, err = run_tool(b, "exp2cxx", full_exp, os.path.join(root, "full"), cfg)
+    if rc != 0:
+        shutil.rmtree(root, ignore_errors=True)
+        return
+    full_files = set(G.tree_listing(wd))
+    enums = [t for t in s0.types() if t.body == "enum"][:3]
+    for i, t in enumerate(enums):
+        alone = SG.Schema(s0.name)
+        alone.add(SG.TypeDecl(t.name, "enum", t.spelled, items=list(t.items)))
+        exp = os.path.join(root, "in", f"alone{i}.exp")
+        open(exp, "w").write(SG.SchemaFile([alone]).text())
+        rc, wd2, out, path, err = run_tool(b, "exp2cxx", exp, os.path.join(root, f"a{i}"), cfg)
+        ctx.count(1, key=(name, "alone", t.name))
+        ctx.hist("runs", "exp2cxx/alone-vs-among-others")
+        if rc != 0:
+            continue
+        mine = {f for f in G.tree_listing(wd2) if f.startswith("type/")}
+        if not mine <= full_files and len(ctx.violations) < 3:
+            ctx.violation("exp2cxx:file-name-depends-on-other-declarations",
+                          f"[{name}] alone in a schema, enumeration {t.name[:40]}… gets the files {sorted(mine)}; generated among the other declarations these do not exist "
+                          f"(type/ files there: {sorted(f for f in full_files if f.startswith('type/'))[:6]})",
+                          {"express": gen_file.text(), "tool": "exp2cxx", "configurations": [cfg_dict(cfg), cfg_dict(cfg)], "alone": SG.SchemaFile([alone]).text(),
+                           "how": "run exp2cxx on `express` and on `alone` (the same enumeration as the only declaration) in empty directories and compare the names under type/"})
     shutil.rmtree(root, ignore_errors=True)
 
 
@@ -331,11 +446,22 @@ def run(ctx):
     examine(ctx, b, "every-bound-shape", allb.text(), None, cfgs, idx, gen_file=allb, model_exe=model_exe); idx += 1
     allk = SG.every_type_kind_schema()
     examine(ctx, b, "all-type-kinds", allk.text(), None, cfgs, idx, gen_file=allk, model_exe=model_exe); idx += 1
+    # long-but-legal identifiers (≤ 200 characters): names must not depend on the call history of the name functions
+    for j, (ls, fill) in enumerate([((100, 115), "q"), ((110, 120), "z"), ((120,), "q"), ((115, 116), "z"), ((60, 70), "x")]):
+        lf = SG.long_identifier_schema("enum", ls, filler=fill)
+        alone_clause(ctx, b, f"long-enum-names-{'+'.join(map(str, ls))}-{fill}", lf, j)
+    alone_clause(ctx, b, "all-type-kinds", allk, 90)
+    # files with several schemas and REFERENCE FROM between them (every tool, every configuration)
+    for j in range(2 if quick else 12):
+        g = SG.Gen(ctx.rng, cross_refs=1.0, mutual=0.3, n_types=(3, 7), n_entities=(1, 4))
+        mf = g.schema_file(nschemas=2 + j % 2)
+        ctx.hist("features", "multi-schema (fixed share)")
+        examine(ctx, b, f"multi-schema-{ctx.seed}-{j}", mf.text(), None, cfgs, idx, gen_file=mf, model_exe=model_exe); idx += 1
     n_gen = 8 if quick else 100
     for i in range(n_gen):
         r = ctx.rng
         g = SG.Gen(r, mixed_case=r.choice([0, 0.4]), p_nonliteral_bound=r.choice([0.0, 0.3, 0.6]), p_negated_ref=0.5)
-        f = g.schema_file(nschemas=r.choice([1, 1, 2]))
+        f = g.schema_file(nschemas=r.choice([1, 1, 2, 3]))
         for ft in f.features():
             if ft.startswith(("bound:", "multi")):
                 ctx.hist("features", ft)
@@ -353,7 +479,7 @@ def run(ctx):
     ctx.cov["rule"] = (f"{len(cfgs)} configurations ({', '.join(c.name for c in cfgs)}) x {len(TOOLS)} tools per input; whole output trees byte-compared "
                        "against the base configuration; inputs: minimal non-literal-bound schema, every bound shape, every type kind, generated schemas "
                        "(1-2 schemas per file, with and without non-literal bounds), shipped schemas (quick: small ones)")
-    ctx.sample({"configurations": [vars(c) for c in cfgs]})
+    ctx.sample({"configurations": [cfg_dict(c) for c in cfgs]})
     for name, d in ctx._disagree[:1]:
         ctx.broken.append(("correspondence GenDeterm/ExpressHash model vs exp2cxx output", f"[{name}] {d}"))
 
@@ -364,6 +490,19 @@ def replay(ctx, path):
     ctx._disagree = []
     ctx.lean("StepModel.Props.C12", exes=["m_c12"], extractors=["genbound", "scanner", "exphash"])
     b = ctx.build("plain")
+    if "alone" in r:
+        root = os.path.join(ctx.work, "alone-replay")
+        names = {}
+        for k in ("express", "alone"):
+            exp = os.path.join(root, "in", k + ".exp")
+            os.makedirs(os.path.dirname(exp), exist_ok=True)
+            open(exp, "w").write(r[k])
+            rc, wd, out, path, err = run_tool(b, "exp2cxx", exp, os.path.join(root, k), Config("alone"))
+            names[k] = {f for f in G.tree_listing(wd) if f.startswith("type/")} if rc == 0 else None
+        if names["express"] is not None and names["alone"] is not None and not names["alone"] <= names["express"]:
+            ctx.violation("exp2cxx:file-name-depends-on-other-declarations",
+                          f"[replay] alone: {sorted(names['alone'])}; among the others: {sorted(names['express'])[:6]}", r)
+        return
     cfgs = [Config(**{k: v for k, v in c.items()}) for c in r["configurations"]]
     if r["express"].startswith("<shipped file"):
         examine(ctx, b, "replay", None, r["express"][len("<shipped file "):-1], cfgs, 0, tools=[r["tool"]])
